@@ -331,6 +331,24 @@ pub fn run(scenario: &str, input: &Value) -> Option<(bool, Value)> {
             }
             Some((ok, json!({"owned": format!("{:?}", owned), "borrowed": borrowed_obs})))
         }
+        // C03/C13: decoding `bytes` yields exactly the expected term (structure compared through Debug, which is
+        // structural; `map_len` guards against key merging, which would also merge in the expected term)
+        "decode_value" => {
+            let data = gen_bytes(input);
+            let want = term(&input["expect"]);
+            let owned = erltf::decode(&data);
+            let mut ok = match &owned { Ok(t) => format!("{:?}", t) == format!("{:?}", want), Err(_) => false };
+            if let (Some(n), Ok(erltf::OwnedTerm::Map(m))) = (input.get("map_len").and_then(|v| v.as_u64()), &owned) {
+                ok &= m.len() as u64 == n;
+            }
+            let mut borrowed_obs = Value::Null;
+            if input.get("also_borrowed").and_then(|v| v.as_bool()).unwrap_or(false) {
+                let b = erltf::decoder::decode_borrowed(&data).map(|t| t.to_owned());
+                ok &= match (&b, &owned) { (Ok(x), Ok(y)) => format!("{:?}", x) == format!("{:?}", y), _ => false };
+                borrowed_obs = json!(format!("{:?}", b));
+            }
+            Some((ok, json!({"owned": format!("{:?}", owned), "borrowed": borrowed_obs, "expected": format!("{:?}", want)})))
+        }
         // C02: every decoding entry point returns; allocation stays proportional to the input
         "decode_bytes" => {
             let data = gen_bytes(input);
